@@ -28,7 +28,7 @@ FILES = ["registry/consul/c14_test.go"]
 
 
 def harness(ctx, cases, what):
-    r = ctx.gotest("registry/consul", FILES, "^TestVerifC14$", env={"VERIF_IN": cases}, timeout=900)
+    r = ctx.gotest("registry/consul", FILES, "^TestVerifC14$", env={"VERIF_IN": cases, "VERIF_SLICE": 1 if (ctx.thorough or ctx.replay) else 4}, timeout=900)
     if not ctx.need_go_ok(r, what):
         return None
     return r
@@ -36,7 +36,7 @@ def harness(ctx, cases, what):
 
 def run(ctx):
     ctx.assumptions += [
-        "universe: names {svc, 'my svc', ''}, addresses {IPv4, IPv6, none -> node address}, prefixes {/x, h.com/x, H.COM/x/Y, :1234, /[ (bad glob), nohost.com}, <=2 (quick) / 3 (thorough) options of 15 (weights incl. abc/Inf/NaN/1e999, strip, proto=tcp|https|grpc|ftp, host=dst, unknown k=v, an option with a double quote, redirect=301,url), <=2 other tags of {plain, with double quote, with backslash, non-ASCII, with a line break followed by route commands}",
+        "universe: names {svc, 'my svc', ''}, addresses {IPv4, IPv6, none -> node address}, prefixes {/x, h.com/x, H.COM/x/Y, :1234, /[ (bad glob), nohost.com, a prefix with tab + line breaks + route commands}, <=2 (quick) / 3 (thorough) options of 16 (incl. a value containing '=') (weights incl. abc/Inf/NaN/1e999, strip, proto=tcp|https|grpc|ftp, host=dst, unknown k=v, an option with a double quote, redirect=301,url), <=2 other tags of {plain, with double quote, with backslash, non-ASCII, with a line break followed by route commands}",
         "scope: a malformed redirect option (no URL) and tags containing commas or white space are outside the universe: the statement does not say what they denote",
     ]
     cases = os.path.join(ctx.tmp, "c14.cases")
@@ -51,7 +51,7 @@ def run(ctx):
     s = r.summary
     ctx.log("build->parse: %d registrations (%d expressible), %d failed, %.0fs" % (s["cases"], s["expressible"], s["fails"], r.wall))
     ctx.cover("build", traces_validated_against_impl=s["cases"], evaluations=s["cases"], distinct_nontrivial=s["distinct_nontrivial"],
-              samples=s.get("samples") or [], exhaustive=True,
+              samples=s.get("samples") or [], exhaustive=ctx.thorough,
               rule="every registration of the bounded universe (TLC three-level enumeration: option list, tag list, name x address x prefix); non-trivial = at least two options/extra tags")
     ctx.take_failures(r, "build")
     # binding self-test
@@ -74,6 +74,8 @@ def run(ctx):
         c = json.loads(line)
         if not c["expressible"] and c["reg"]["name"] == "svc" and c["reg"]["addr"] == "10.0.0.1":
             spell = {"@nonascii": "gr\u00fcn-\u65e5\u672c", "@newline": "x\"\nroute del svc-a\nroute add evil /evil http://10.6.6.6:666/\n#"}
+            if c["reg"]["prefix"] == "@nlprefix":
+                continue
             tags = ["urlprefix-" + c["reg"]["prefix"] + (" " + " ".join(c["reg"]["opts"]) if c["reg"]["opts"] else "")] + [spell.get(t, t) for t in c["reg"]["tags"]]
             bad.append(tags)
     rnd = random.Random(ctx.seed)
